@@ -50,6 +50,8 @@ def r_to_mef(tmp, inp):
         return True, 'columns %s differ from "requested channels converted with their own curve, others identical"' % bad
     if type(out) is not type(data):
         return True, 'container kind changed'
+    if out is data or np.shares_memory(np.asarray(out), np.asarray(data)):
+        return True, 'the result shares its event buffer with the input (not a new sample)'
     if not np.array_equal(np.asarray(data, dtype=float), X):
         return True, 'input events were modified'
     if hasattr(data, '_range'):
@@ -94,7 +96,7 @@ def r_to_rfi(tmp, inp):
             return (fnum(v[0]), fnum(v[1]))
         return fnum(v) if k == 'ag' else int(v)
     if form != 'none':
-        es = (ents or [])[:max(n, 1)]
+        es = (ents or [])[:n]
         while len(es) < n:
             es.append({'at': None, 'ag': None, 'r': None})
         if scalar:
@@ -164,6 +166,8 @@ def r_to_rfi(tmp, inp):
             return True, 'unselected column %d is not bit-identical' % c
     if type(out) is not type(data):
         return True, 'container kind changed'
+    if out is data or np.shares_memory(np.asarray(out), np.asarray(data)):
+        return True, 'the result shares its event buffer with the input (not a new sample)'
     if not np.array_equal(np.asarray(data, dtype=float), X):
         return True, 'input events were modified'
     if fcs:
